@@ -108,6 +108,49 @@ Fixpoint has_ptr_zero (s : schema) (v : value) {struct v} : bool :=
   | _ => false
   end.
 
+(* model value vs the harness' rendering of the Go object: [VDefault] (a Go zero value the decoder never
+   touched) matches any zero value of the field's type *)
+Fixpoint value_eqz (s : schema) (a b : value) {struct a} : bool :=
+  match a with
+  | VDefault => is_zero env false s b
+  | VRef a' => match b, s with
+               | VRef b', SRef id => match lookup env id with Some s' => value_eqz s' a' b' | None => false end
+               | _, _ => false
+               end
+  | VSome a' => match b, s with VSome b', SPtr e => value_eqz e a' b' | _, _ => false end
+  | VList la => match b, s with
+                | VList lb, (SArray _ e | SSlice _ e) =>
+                    (fix go (l1 l2 : list value) {struct l1} : bool :=
+                       match l1, l2 with
+                       | [], [] => true
+                       | x :: l1', y :: l2' => value_eqz e x y && go l1' l2'
+                       | _, _ => false
+                       end) la lb
+                | _, _ => false
+                end
+  | VMap la => match b, s with
+               | VMap lb, SMap _ ks vs =>
+                   (fix go (l1 l2 : list (value * value)) {struct l1} : bool :=
+                      match l1, l2 with
+                      | [], [] => true
+                      | (k1, x1) :: l1', (k2, x2) :: l2' => value_eqz ks k1 k2 && value_eqz vs x1 x2 && go l1' l2'
+                      | _, _ => false
+                      end) la lb
+               | _, _ => false
+               end
+  | VStruct la => match b, s with
+                  | VStruct lb, SStruct fs =>
+                      (fix go (fs : list (fhdr * schema)) (l1 l2 : list value) {struct l1} : bool :=
+                         match fs, l1, l2 with
+                         | [], [], [] => true
+                         | (_, fsch) :: fs', x :: l1', y :: l2' => value_eqz fsch x y && go fs' l1' l2'
+                         | _, _, _ => false
+                         end) fs la lb
+                  | _, _ => false
+                  end
+  | _ => value_eqb a b
+  end.
+
 Inductive outcome := OOk (v : value) (re : bytes) | OErr | OPanic | OBad.
 
 Definition parse_out (t : term) : outcome :=
@@ -183,7 +226,7 @@ Definition check41 (t : term) : term :=
                          | _ => false
                          end in
           let corr := match m, out with
-                      | Ok (v', _), OOk v _ => value_eqb (norm_m s v') (norm_m s v)
+                      | Ok (v', _), OOk v _ => value_eqz s (norm_m s v') (norm_m s v)
                       | Err _, OErr => true
                       | Unm _, (OOk _ _ | OErr) => true
                       | _, _ => false
